@@ -95,6 +95,10 @@ def _cfg(i):
         c.launch_fields = True
     if i % 5 == 3:
         c.p_call = 0.25
+    if i % 4 == 3:
+        c.p_prethreaded = 0.5
+    if i % 3 == 2:
+        c.p_repeat = 0.6
     if i % 6 == 0:
         c.n_accs = 1
         c.max_fields = 2
@@ -213,17 +217,22 @@ def _l2(items, deep):
                      "Definition ok (c : prog * prog * list (list Z)) := match c with (p0, p2, ins) =>\n"
                      f"  forallb (fun a => forallb (fun sd => trace_sim_b (run (test_oracle sd) p0 a) (run (test_oracle sd) p2 a)\n"
                      f"     && trace_sim_b (run (orc_b sd) p0 a) (run (orc_b sd) p2 a)) {seeds}) ins end.\n"
-                     "Eval vm_compute in failing ok cases.\n")
+                     "Eval vm_compute in failing ok cases.\n"
+                     "Eval vm_compute in failing (fun c => match c with (p0, p2, ins) => full_field_form p0 end) cases.\n")
     res = vlib.coq_eval_many("c01l2_", texts, timeout=900)
     for sh, (ok, out) in zip(shards, res):
         lists = vlib.parse_all_eval_lists(out)
-        if not ok or len(lists) != 1:
+        if not ok or len(lists) != 2:
             fails.append({"what": "cases-file", "detail": out[-1500:], "klass": None})
             continue
+        not_ff = set(lists[1])
         for idx in lists[0]:
             text, fn, ins, st, from_traced = sh[idx]
-            fails.append({"what": "dedup-changed-what-a-launch-observes", "text": text, "fn": fn, "inputs": ins,
-                          "from_traced": from_traced, "_st": st, "klass": None})
+            # known-finding class F23: the ORIGINAL program is not in the full-field lowering form
+            klass = "not_full_field_setups" if idx in not_ff else None
+            what = "dedup-changed-what-a-launch-observes" + ("(not full-field form)" if klass else "")
+            fails.append({"what": what, "text": text, "fn": fn, "inputs": ins,
+                          "from_traced": from_traced, "_st": st, "klass": klass})
     return fails
 
 
@@ -259,6 +268,7 @@ def search(ctx, deep=False):
     seen, out = set(), []
     # report a semantic failure (concrete runtime input) before loud failures of the pass
     fails.sort(key=lambda f: 0 if f["what"] == "dedup-changed-what-a-launch-observes" else 1)
+    fails = [f for f in fails if f.get("klass") is None] + [f for f in fails if f.get("klass") is not None]
     for f in fails:
         if f["what"] not in seen:
             seen.add(f["what"])
@@ -270,7 +280,11 @@ def search(ctx, deep=False):
 
 
 def replay_known(ctx, entry):
-    return False
+    w = entry["witness"]
+    text = open(w["file"]).read()
+    st = AC.Staged(text, w["fn"])
+    fails = _l2([(text, w["fn"], w["inputs"], st, False)], False)
+    return any(f.get("klass") == entry["class"] for f in fails)
 
 
 def replay(ctx, obj):
